@@ -263,6 +263,7 @@ type w4Named struct {
 	// one naming it although that one's reply had already been received (the track reply is
 	// written before the hub join)
 	serverOverlap bool
+	revoked       bool // a revoke of the key that affects the connection ran while a track command naming it was being handled
 }
 
 type w4Unsub struct {
